@@ -34,7 +34,7 @@ from ..rec import Rec, close, maxrel
 
 LEVEL = 'exploration'
 RULE = (
-    'cases = seeded panel tables (1-40 individuals x 1-6 rows, singletons frequent, id values small/negative/'
+    'cases = seeded panel tables (1-40 individuals, thorough also 41-150, x 1-6 rows, singletons frequent, id values small/negative/'
     'non-integer/large/beyond 2^53, blocks and rows inside blocks shuffled, frame index range/shuffled/with gaps, '
     'optionally rows removed after panel()) x generated strictly positive per-observation formulas (depth<=3, with '
     'logit probabilities and parameters) inside PanelLikelihoodTrajectory, half of them under MonteCarlo with 1-8 '
@@ -54,12 +54,12 @@ ASSUMPTIONS = [
     'and independent of the order of the table',
     'values compared at rtol 1e-9 / atol 1e-11 (no normal CDF in the generated formulas); permutation partners at rtol 1e-10',
 ]
-MIN_DISTINCT = {'quick': 200, 'thorough': 4000}
+MIN_DISTINCT = {'quick': 200, 'thorough': 5000}
 CASE_TIMEOUT = 180
 
-N_RANDOM = {'quick': 340, 'thorough': 9000}
-N_MC = {'quick': 40, 'thorough': 600}
-N_REMOVE = {'quick': 40, 'thorough': 500}
+N_RANDOM = {'quick': 340, 'thorough': 8000}
+N_MC = {'quick': 40, 'thorough': 800}
+N_REMOVE = {'quick': 40, 'thorough': 800}
 N_OUTSIDE = {'quick': 16, 'thorough': 200}
 N_NONCONTIG = {'quick': 20, 'thorough': 300}
 N_DIRECTED_OUTSIDE = 4
@@ -479,7 +479,8 @@ def run_case(case):
             rec.key([spec['canon'], spec['pres_a'], spec['formulas'], spec['shared'], spec['eval_betas'], spec['draws'],
                      spec['ndraws'], spec['remove']])
         rec.c('cases_evaluated')
-        rec.c('individuals_1' if r0['n_ind'] == 1 else 'individuals_2_to_12' if r0['n_ind'] <= 12 else 'individuals_13_to_40')
+        rec.c('individuals_1' if r0['n_ind'] == 1 else 'individuals_2_to_12' if r0['n_ind'] <= 12
+              else 'individuals_13_to_40' if r0['n_ind'] <= 40 else 'individuals_41_to_150')
         if all(s == 1 for s in sizes):
             rec.c('tables_with_singletons_only')
         if any(s == 1 for s in sizes) and any(s > 1 for s in sizes):
@@ -527,6 +528,8 @@ def finalize(cov, tier):
     for k in need:
         if cov.get(k, 0) == 0:
             out.append(f'monitor / workload class never observed: {k}')
+    if tier == 'thorough' and cov.get('individuals_41_to_150', 0) == 0:
+        out.append('workload class never observed: individuals_41_to_150')
     if cov.get('threads_1', 0) == 0 or sum(v for k, v in cov.items() if k.startswith('threads_') and k != 'threads_1') == 0:
         out.append('thread counts: need single- and multi-threaded evaluations')
     return out
